@@ -867,6 +867,15 @@ pub fn prefix(name: &str) -> Vec<Op> {
         // a recovered database: data in a table and in the (replayed) memtable; everything that follows runs on the
         // objects `Database::recover` builds, not on the ones `create_new` builds
         "reopened_with_data" => p(&["ins x.a=1", "ins x.b=1", "rotate x", "step WorkerMessage:Flush", "ins x.ab=2", "ins y.a=1", "reopen"]),
+        // journal ids with different digit counts side by side: 9.jnl sealed (kept back by y), 10.jnl active
+        "journals_9_and_10" => {
+            let mut v = vec![];
+            for _ in 0..9 {
+                v.extend(p(&["ins x.a=1", "rotate x", "step+jrot WorkerMessage:Flush"]));
+            }
+            v.extend(p(&["ins y.a=1", "ins x.a=2", "rotate x", "step+jrot WorkerMessage:Flush", "ins y.a=2", "rem x.a"]));
+            v
+        }
         // a cross-keyspace batch whose first keyspace has been flushed, the other not
         "batch_half_flushed" => p(&["ins y.b=1", "batch [x.a=2 y.a=1]", "rotate x", "step WorkerMessage:Flush"]),
         other => panic!("unknown prefix {other}"),
